@@ -108,8 +108,10 @@ fn compose(children: &[Type], few: &[Type]) -> Vec<Type> {
     out.push(Type::Struct(Fields::Unnamed(vec![])));
     out.push(Type::Struct(Fields::Named(vec![])));
     out.push(Type::Enum(vec![("Only".into(), Fields::None)]));
-    // 257 variants: the tag becomes two bytes
-    out.push(Type::Enum((0..257).map(|i| (format!("V{i}"), if i == 256 { Fields::Unnamed(vec![Type::U8]) } else { Fields::None })).collect()));
+    // 255 / 256 variants: one-byte tag; 257: the tag becomes two bytes (the last variant carries a payload)
+    for n in [255usize, 256, 257] {
+        out.push(Type::Enum((0..n).map(|i| (format!("V{i}"), if i == n - 1 { Fields::Unnamed(vec![Type::U8]) } else { Fields::None })).collect()));
+    }
     out
 }
 
